@@ -134,6 +134,29 @@ def run(ctx, chk):
                 chk.ok("C14.R1", f"{label}:range", "conversion failure -> error!")
             else:
                 chk.violation("C14.R1", label, "range-not-rejected", f"{label}: an out-of-range constant is not rejected", f"{GA.g['file']}:{p['line']}")
+            # the conversion that can fail must be made in the operand's own type: a wider one accepts constants the operand
+            # cannot hold (they are then cut down by a cast) unless the accepting path tests the range itself
+            convs = [e for q in paths for e in q.effects if e.kind == "from_str_radix"]
+            decl = M.int_type(nt_data["type"])
+            if convs and decl:
+                cty = M.int_type(convs[0].ty or "")
+                if not cty:
+                    chk.undecided_("C14.R1", f"{label}:range-type", f"conversion type {convs[0].ty} not an integer type")
+                else:
+                    def rng(t, name):
+                        return (-(1 << (t[0] - 1)), (1 << (t[0] - 1)) - 1) if name.startswith("i") else (0, (1 << t[0]) - 1)
+                    (clo, chi), (dlo, dhi) = rng(cty, convs[0].ty), rng(decl, nt_data["type"])
+                    okp = [q for q in paths if succeeds(q)]
+                    tested = any(re.search(r"<|>|contains|try_from|try_into", c[0]) for q in okp for c in q.conds if "matches" not in c[0])
+                    if clo >= dlo and chi <= dhi:
+                        chk.ok("C14.R1", f"{label}:range-type", f"converted as {convs[0].ty}: every accepted constant fits {nt_data['type']}")
+                    elif tested:
+                        chk.undecided_("C14.R1", f"{label}:range-type", f"converted as {convs[0].ty} (wider than {nt_data['type']}) with an explicit range test on the accepting path")
+                    else:
+                        chk.violation("C14.R1", label, f"range-wider-than-operand:{convs[0].ty}->{nt_data['type']}",
+                                      f"{label}: the literal is converted as {convs[0].ty} but the operand is a {nt_data['type']}: constants in [{clo},{chi}] outside [{dlo},{dhi}] "
+                                      f"are accepted and silently cut down instead of being refused", f"{GA.g['file']}:{p['line']}",
+                                      witness=f"a constant just outside the {nt_data['type']} range, e.g. {dlo - 1 if clo < dlo else dhi + 1}")
 
     # ---- R2 grammar shape
     for nt_data in GA.g["nonterminals"]:
